@@ -418,8 +418,30 @@ func FaultDomain(base *Domain, maxK int, pairs bool) *Domain {
 	return d
 }
 
+// EvictDomain: a fault domain in which the first fault also makes the set (1) or the pod the failing call is about (2)
+// vanish from the informer cache at that moment - the re-read that follows a Conflict then finds nothing.
+func EvictDomain(base *Domain) *Domain {
+	nb := len(base.Dims)
+	d := &Domain{Name: "evict[" + base.Name + "]", Dims: append(append([]int{}, base.Dims...), 2)}
+	d.Make = func(ix []int) *Scenario {
+		sc := base.Make(ix[:nb])
+		sc.Dom = ix
+		if len(sc.Faults) > 0 {
+			sc.Faults[0].Evict = []string{"set", "pod"}[ix[nb]]
+		}
+		return sc
+	}
+	return d
+}
+
 func extraDomain(name string, maxOrd, maxRep, nph int) *Domain {
 	switch name {
+	case "evict-pods":
+		return EvictDomain(FaultDomain(PodsDomain(maxOrd, maxRep, nph, false), 8, false))
+	case "evict-claims":
+		base := ClaimsDomain()
+		base.Dims[0] = 2
+		return EvictDomain(FaultDomain(base, 8, false))
 	case "faults-pods":
 		return FaultDomain(PodsDomain(maxOrd, maxRep, nph, false), 8, false)
 	case "faults2-pods":
